@@ -13,6 +13,7 @@ A descriptor is a nested tuple of strings/ints only: hashable, orderable, JSON-a
     ("nt", ((e, has_default), ...))          typing.NamedTuple, class syntax
     ("ntf", (e, ...))                        collections.namedtuple + annotations (functional)
     ("td", ((e, kind), ...))                 TypedDict; kind in req / notreq / total_false
+    ("td" | "nt", (...), "generic")          the same, as a parametrisation of a generic class whose first member is a TypeVar
     ("dc", variant, ((e, kind), ...))        dataclass; kind in req / dflt / none
     ("dcgen", e)      Generic dataclass G[T]{x: T, xs: List[T]} used as G[e]
     ("dcgeninh", e)   class Child(G[e]) with an own field
@@ -374,12 +375,33 @@ def _default_src(ctx, d, v):
     return f"field(default={name}{{meta}})"
 
 
+def _generic_cached(d, ctx):
+    """("nt" | "td", fields, "generic"): ONE generic class per shape (first member typed by a TypeVar), shared by every descriptor of
+    that shape in the materialisation, so that two parametrisations of the same generic class can meet in one schema."""
+    if len(d) < 3 or d[2] != "generic":
+        return None, None
+    reg = ctx.__dict__.setdefault("generic_classes", {})
+    key = (d[0], tuple(kind for _, kind in d[1]), tuple(e for e, _ in d[1][1:]))
+    return reg, key
+
+
 def _mk_nt(d, ctx):
+    reg, key = _generic_cached(d, ctx)
+    if reg is not None and key in reg:
+        cls, fields = reg[key]
+        ctx.info[d] = dict(cls=cls, fields=fields)
+        return cls[hint(d[1][0][0], ctx)]
     cname = ctx.fresh("NTup")
     lines = [f"class {cname}(NamedTuple):"]
+    if reg is not None:
+        tv = ctx.fresh("TN")
+        ctx.run(f"{tv} = TypeVar('{tv}')")
+        lines = [f"class {cname}(NamedTuple, Generic[{tv}]):"]
     fields = []
     for i, (e, has_default) in enumerate(d[1]):
         hn = ctx.inject(hint(e, ctx), "_h")
+        if reg is not None and i == 0:
+            hn = tv
         if has_default:
             dv = ctx.inject(values(e, ctx)[0], "_dv")
             lines.append(f"    n{i}: {hn} = {dv}")
@@ -388,6 +410,9 @@ def _mk_nt(d, ctx):
         fields.append(f"n{i}")
     cls = ctx.execute(cname, "\n".join(lines))
     ctx.info[d] = dict(cls=cls, fields=fields)
+    if reg is not None:
+        reg[key] = (cls, fields)
+        return cls[hint(d[1][0][0], ctx)]
     return cls
 
 
@@ -404,12 +429,23 @@ def _mk_ntf(d, ctx):
 
 
 def _mk_td(d, ctx):
+    reg, key = _generic_cached(d, ctx)
+    if reg is not None and key in reg:
+        cls, fields = reg[key]
+        ctx.info[d] = dict(cls=cls, fields=fields)
+        return cls[hint(d[1][0][0], ctx)]
     cname = ctx.fresh("TD")
     total_false = any(kind == "total_false" for _, kind in d[1])
     lines = [f"class {cname}(TypedDict{', total=False' if total_false else ''}):"]
+    if reg is not None:
+        tv = ctx.fresh("TT")
+        ctx.run(f"{tv} = TypeVar('{tv}')")
+        lines = [f"class {cname}(TypedDict, Generic[{tv}]{', total=False' if total_false else ''}):"]
     fields = []
     for i, (e, kind) in enumerate(d[1]):
         hn = ctx.inject(hint(e, ctx), "_h")
+        if reg is not None and i == 0:
+            hn = tv
         if kind == "notreq":
             lines.append(f"    k{i}: NotRequired[{hn}]")
         elif kind == "req" and total_false:
@@ -421,6 +457,9 @@ def _mk_td(d, ctx):
         fields.append((f"k{i}", kind in ("req", "readonly")))
     cls = ctx.execute(cname, "\n".join(lines))
     ctx.info[d] = dict(cls=cls, fields=fields)
+    if reg is not None:
+        reg[key] = (cls, fields)
+        return cls[hint(d[1][0][0], ctx)]
     return cls
 
 
@@ -817,7 +856,7 @@ def show(d):
     if k == "dc":
         return f"dc.{d[1]}(" + ",".join(f"{show(e)}:{kd}" for e, kd in d[2]) + ")"
     if k in ("nt", "td"):
-        return f"{k}(" + ",".join(f"{show(e)}:{kd}" for e, kd in d[1]) + ")"
+        return f"{k}{'.generic' if len(d) > 2 else ''}(" + ",".join(f"{show(e)}:{kd}" for e, kd in d[1]) + ")"
     if k == "ntf":
         return "ntf(" + ",".join(show(e) for e in d[1]) + ")"
     if k == "tupleu":
@@ -914,6 +953,9 @@ def wrappers(e, level="full"):
     out += [("nt", ((e, False),)), ("nt", ((INT, False), (e, True))), ("ntf", (e, STR))]
     out += [("td", ((e, "req"),)), ("td", ((INT, "req"), (e, "notreq"))), ("td", ((e, "total_false"), (STR, "req"))),
             ("td", ((e, "readonly"),))]
+    # two parametrisations of ONE generic TypedDict / NamedTuple class side by side in one field
+    out += [("tuple", ("td", ((e, "req"), (INT, "notreq")), "generic"), ("td", ((STR, "req"), (INT, "notreq")), "generic")),
+            ("tuple", ("nt", ((STR, False), (INT, True)), "generic"), ("nt", ((e, False), (INT, True)), "generic"))]
     for variant in DC_VARIANTS:
         if variant in ("mixin", "plain"):
             continue
